@@ -232,6 +232,18 @@ def annotate(lines, model_out):
             m = mo.split()
             if len(m) == 3:
                 ln = ln + " want=" + m[2]
+        elif t[0] == "sync":
+            m = mo.split()
+            if len(m) == 2:
+                ln = ln + " want=" + m[1]
+        elif t[0] == "take":
+            m = mo.split()
+            if len(m) >= 4 and m[0] == "batch":
+                n = 0 if m[2] == "-" else len(m[2].split(","))
+                ln = ln + " want=%d closed=%s" % (n, m[3].split("=")[1])
+        elif t[0] == "join":
+            if mo.startswith("stuck"):
+                ln = ln + " want=stuck"
         elif t[0] in ("qlen", "retrywait"):
             m = mo.split()
             if len(m) == 2:
